@@ -195,6 +195,7 @@ type vSimLeader struct {
 	budget  int   // entries the real follower may still be given (a scheduled fetch sets it)
 	hwSent  int64 // the HW told to the real follower at its last scheduled fetch
 	gated   bool  // serve data only against the budget
+	mute    bool  // leader-epoch-offset requests get no answer (the leader is gone before it can reply)
 	served  chan int64
 	v       *vPart
 	name    string
@@ -205,6 +206,7 @@ type vSimLeader struct {
 	mu      sync.Mutex
 	subs    []*nats.Subscription
 	asked   []vM                 // leader-offset requests it answered
+	unanswered int
 	onFetch func(reported int64) // called (under the lock) when a scheduled fetch arrives, before the HW is read
 }
 
@@ -261,6 +263,10 @@ func (sl *vSimLeader) onOffsetRequest(m *nats.Msg) {
 	sl.mu.Lock()
 	defer sl.mu.Unlock()
 	if sl.epoch == 0 || m.Reply == "" {
+		return
+	}
+	if sl.mute {
+		sl.unanswered++
 		return
 	}
 	req, err := proto.UnmarshalLeaderEpochOffsetRequest(m.Data)
